@@ -467,7 +467,10 @@ def run_control(spec):
             except BaseException as e:
                 res.violation(f"control-run-raised:{action}:{type(e).__name__}", str(e)[-300:])
             finally:
-                group.terminate(3.0)
+                try:
+                    group.terminate(3.0)
+                except BaseException as e:  # noqa
+                    res.violation(f"terminate-raised-after-proxy-control:{action}:{type(e).__name__}", f"rep {rep}: {str(e)[-1200:]}")
     res.sample({"control_actions": ["kill", "exit_wait", "close_write"], "reps": spec["reps"]})
     return res
 
